@@ -565,3 +565,49 @@ def check(ctx, rep, upto=None):
         return depth < 2 and h in mac.adts and any(holds_holder(f['ty'], depth + 1) for f in (adt_fields(mac, h) or []))
     hst = [c for c in st if holds_holder(c['ty'])]
     rep.ob('R4', 'one-global-holder', len(hst) == 1, '', 'exactly one static (holding the) holder: %s' % [c['path'] for c in hst])
+    rule_global_api(mac, rep)
+
+
+def rule_global_api(mac, rep, rid='R6'):
+    """The three public functions are the holder's methods applied to the one static holder and nothing else: a second piece
+    of state beside the holder (a flag raised by set_global_default, a cached Arc) answers "is it set" / "which client" by
+    rules of its own - a setter that lost the election would raise the flag while the winner is still writing."""
+    from .c17 import _lookup_shape
+    HM = 'cadence_macros::state::SingletonHolder::'
+    g = mac.bodies.get('cadence_macros::state::get_global_default')
+    s = mac.bodies.get('cadence_macros::state::set_global_default')
+    q = mac.bodies.get('cadence_macros::state::is_global_default_set')
+    for n_, b_ in (('get_global_default', g), ('set_global_default', s), ('is_global_default_set', q)):
+        if b_ is None:
+            rep.anchor_lost(rid, n_)
+    if g is None or s is None or q is None:
+        return
+    for b_ in (g, s, q):
+        rep.analysed(b_)
+    ok, rts, holder_id = _lookup_shape(mac, g)
+    rep.ob(rid, 'get_global_default-is-holder-get', ok, g.where(), 'get_global_default() = HOLDER.get().ok_or(GlobalDefaultNotSet)' if ok else
+           'get_global_default returns %s' % [fmt(x)[:100] for x in rts])
+
+    def sole_holder_call(b_, meth):
+        ib_ = inl(mac, b_, never=lambda x: strip_generics(x.path).startswith(HM))
+        T_ = Terms(ib_)
+        calls = [(bi, norm(T_.call_term(bi))) for bi, t in ib_.calls() if not ib_.blocks[bi]['cleanup']]
+        stores = [1 for blk in ib_.blocks if not blk['cleanup'] for st_ in blk['stmts']
+                  if st_['k'] == 'assign' and any(e[0] == 'deref' for e in st_['place']['p'])]
+        if len(calls) != 1 or stores or not term_callee_is(calls[0][1], HM + meth):
+            return None, ib_, T_, 'it makes the calls %s' % [fmt(c_)[:70] for _, c_ in calls]
+        if holder_id is None or peel(calls[0][1][2][0]) != holder_id:
+            return None, ib_, T_, 'it works on another holder than get_global_default'
+        return calls[0], ib_, T_, ''
+    c_, ib_, T_, why = sole_holder_call(s, 'set')
+    oks = c_ is not None and c_[1][2][1] == ('param', 1)
+    rep.ob(rid, 'set_global_default-is-holder-set', oks, s.where(), 'set_global_default(c) = HOLDER.set(c), nothing else is written' if oks else
+           'set_global_default is not just HOLDER.set(client): %s' % (why or 'the client handed on is not its argument'))
+    c_, ib_, T_, why = sole_holder_call(q, 'is_set')
+    okq = False
+    if c_ is not None:
+        rts_ = ret_terms(T_, [0])
+        okq = len(rts_) == 1 and norm(list(rts_)[0]) == c_[1]
+        why = why or 'it returns %s' % [fmt(x)[:80] for x in rts_]
+    rep.ob(rid, 'is_global_default_set-is-holder-is_set', okq, q.where(), 'is_global_default_set() = HOLDER.is_set()' if okq else
+           'is_global_default_set does not answer with the holder\'s own state: %s' % why)
